@@ -5,7 +5,7 @@
    predecessor - nothing more is assumed; the sort is not stable). *)
 From Coq Require Import List NArith ZArith Sorting.Permutation Sorting.Sorted.
 Import ListNotations.
-From BioVerif Require Import Model.PathSel Spec.PathSelSpec Proofs.PathSelProofs.
+From BioVerif Require Import Model.PathSel Spec.PathSelSpec Proofs.PathSelProofs Gen.SelectGen Proofs.SelectGenEquiv.
 Open Scope N_scope.
 
 (* ---- the preference relation is a total preorder *)
@@ -23,6 +23,15 @@ Theorem C02_total_preorder :
   (forall a b c, prefers a b -> prefers b c -> prefers a c).
 Proof. split; [exact prefers_total | exact prefers_trans]. Qed.
 Print Assumptions C02_total_preorder.
+
+(* ---- the same on the per-protocol functions regenerated from the Go source on this run
+   (Gen/SelectGen.v; path_select_gen = the hand-modelled dispatcher over the generated BGPPath.Select /
+   StaticPath.Select, Proofs/SelectGenEquiv.v) *)
+Theorem C02_total_preorder_gen :
+  (forall a b, prefers_gen a b \/ prefers_gen b a) /\
+  (forall a b c, prefers_gen a b -> prefers_gen b c -> prefers_gen a c).
+Proof. exact total_preorder_gen. Qed.
+Print Assumptions C02_total_preorder_gen.
 
 (* ties are reported exactly between paths the decision process cannot distinguish *)
 Theorem C02_tie_iff_key_eq : forall a b, tied a b <-> key_of a = key_of b.
